@@ -937,7 +937,7 @@ pub fn eval(raw: &Raw) -> CaseOutcome {
 // ------------------------------------------------------------------ chains (child process)
 
 /// a chain c0 <- c1 <- ... <- c_d, used once; the program then writes a marker
-fn chain_program(depth: usize, cyclic: bool) -> String {
+pub fn chain_program(depth: usize, cyclic: bool) -> String {
     let mut s = String::new();
     s.push_str(&format!("macro c0(_) -> {} <-\n", if cyclic { format!("c{} (_)", depth) } else { "inc bx".to_string() }));
     for i in 1..=depth {
